@@ -10,7 +10,8 @@
    marker only selects "its" frames.  The refutations below are universal (every valid log), the
    Example gives the concrete vm_compute witness; what IS detected is stated after them. *)
 From Coq Require Import List NArith.
-From Echo Require Import Base.Bytes Model.Wal Proofs.WalProofs Proofs.WalProofs2.
+From Echo Require Import Base.Bytes Model.Wal Proofs.WalProofs Proofs.WalProofs2 Proofs.WalProofs3
+  Proofs.WalProofs5.
 Import ListNotations.
 Open Scope N_scope.
 
@@ -63,6 +64,59 @@ Check commit_swap_refuted : forall (H : bytes -> N) l0 a t1 t2 b,
   recover_fc H (log_frames (a ++ t1 :: t2 :: b)) (map w_commit (a ++ t2 :: t1 :: b)) =
   Ok (map rtx_of (a ++ t2 :: t1 :: b), TClean).
 Print Assumptions commit_swap_refuted.
+
+(* ---- what IS detected: damage inside a disk record ----
+   Bytes [d] of the right length replace record [r] of a log (flipped bits, zeroed ranges, anything).
+   Records before it are unaffected; then the reader returns an error, or classifies a torn tail
+   (exactly the records before [r]: a prefix of the history), or - the explicit hash event - its
+   digest check passes at that position on bytes that are not the original record. *)
+Theorem record_damage : forall (H : bytes -> N) rs r d post,
+  Forall (lrec_wf H) rs -> Forall payload_small rs ->
+  length d = lrec_size r -> d <> enc_lrec H r ->
+  (exists e, read_segment H (encode_log H rs ++ d ++ post) = Err e) \/
+  read_segment H (encode_log H rs ++ d ++ post) = Ok (rs, true) \/
+  AcceptsAt H (d ++ post).
+Proof. exact record_damage_segment. Qed.
+Check record_damage : forall (H : bytes -> N) rs r d post,
+  Forall (lrec_wf H) rs -> Forall payload_small rs ->
+  length d = lrec_size r -> d <> enc_lrec H r ->
+  (exists e, read_segment H (encode_log H rs ++ d ++ post) = Err e) \/
+  read_segment H (encode_log H rs ++ d ++ post) = Ok (rs, true) \/
+  AcceptsAt H (d ++ post).
+Print Assumptions record_damage.
+
+(* The hash event classified.  Damage of the kind byte / payload that leaves the length field and the
+   stored digest alone (every bit flip and zeroed range inside a payload): rejected, or a collision. *)
+Theorem payload_damage_detected : forall (H : bytes -> N) (A : Type) (dec : N -> bytes -> res A)
+  kind payload kind' payload' rest fuel,
+  kind < 256 -> lenN payload < 2 ^ 64 -> length payload' = length payload ->
+  (kind', payload') <> (kind, payload) ->
+  read_loop H dec (S fuel)
+    ((hdr17 kind' (lenN payload) ++ payload' ++ h32b (disk_digest H kind payload)) ++ rest) = Err EDigest \/
+  Collision32 H.
+Proof. exact payload_damage_collision. Qed.
+Check payload_damage_detected : forall (H : bytes -> N) (A : Type) (dec : N -> bytes -> res A)
+  kind payload kind' payload' rest fuel,
+  kind < 256 -> lenN payload < 2 ^ 64 -> length payload' = length payload ->
+  (kind', payload') <> (kind, payload) ->
+  read_loop H dec (S fuel)
+    ((hdr17 kind' (lenN payload) ++ payload' ++ h32b (disk_digest H kind payload)) ++ rest) = Err EDigest \/
+  Collision32 H.
+Print Assumptions payload_damage_detected.
+
+(* Damage confined to the 32 stored digest bytes is ALWAYS rejected (no assumption on the hash). *)
+Theorem digest_damage_rejected : forall (H : bytes -> N) (A : Type) (dec : N -> bytes -> res A)
+  kind payload dg' rest fuel,
+  kind < 256 -> lenN payload < 2 ^ 64 -> length dg' = 32%nat -> wf_bytes dg' = true ->
+  dg' <> h32b (disk_digest H kind payload) ->
+  read_loop H dec (S fuel) ((hdr17 kind (lenN payload) ++ payload ++ dg') ++ rest) = Err EDigest.
+Proof. exact digest_damage_detected. Qed.
+Check digest_damage_rejected : forall (H : bytes -> N) (A : Type) (dec : N -> bytes -> res A)
+  kind payload dg' rest fuel,
+  kind < 256 -> lenN payload < 2 ^ 64 -> length dg' = 32%nat -> wf_bytes dg' = true ->
+  dg' <> h32b (disk_digest H kind payload) ->
+  read_loop H dec (S fuel) ((hdr17 kind (lenN payload) ++ payload ++ dg') ++ rest) = Err EDigest.
+Print Assumptions digest_damage_rejected.
 
 (* Non-vacuity and the concrete witness (replayed on the real crate by harness modes api / edit /
    hostedit): a valid three-transaction log; without the middle commit marker recovery returns
